@@ -56,10 +56,29 @@ class Gen:
         if 40 <= t < 60: return 'rm%s:%d' % (self.tgt(), t - 40)
         return 'st%s:%d' % (self.tgt(), t)
 
+    def notify_handler(self):
+        """Handlers listening for the registration notifications (Add*/Remove* of components, events, handlers,
+        Spawn) that react by sending events / changing entities: what they do runs in the middle of a registration."""
+        r = self.r
+        tag = r.choice([11, 12, 13, 13, 13, 14, 14, 15, 16, 17, 18, 10])
+        params = ['G%dr' % tag]
+        if r.random() < 0.4:
+            params.append('F %s' % r.choice(self.qs))
+        sset = r.choice([3, 4, 6, 6, 6, 2, 8])
+        evs = SENDER_SETS[sset]
+        params.append('N%d %d %s' % (sset, len(evs), ' '.join(evs)))
+        pool = [e for e in evs if e[0] == 't' or e in ('g0', 'g1')] or evs
+        acts = [self.action_for(r.choice(pool)) for _ in range(r.choice([1, 2, 2, 3]))]
+        prio = r.choice(['H', 'M', 'M', 'L'])
+        self.count('handler_notify')
+        return 'addh %s - 0 0 %d %d %s %d %s' % (prio, r.choice([0, 0, 2]), len(params), ' '.join(params), len(acts), ' '.join(acts))
+
     def handler(self, simple=False):
         r = self.r
         if self.profile == 'chains':
             return self.chain_handler()
+        if self.profile == 'registry' and r.random() < 0.35:
+            return self.notify_handler()
         params = []
         # receiver
         targeted = r.random() < 0.5
@@ -146,11 +165,29 @@ class Gen:
             w.update(addh=18, send=14, sendto=14, insert=14)
         elif self.profile == 'panics':
             w.update(panicat=6, addh=16, send=12, sendto=12)
+        elif self.profile == 'registry':
+            w.update(addh=26, rmh=8, addc=4, rmc=4, addge=3, addte=3, rmge=3, rmte=3, send=8, sendto=10, insert=18, spawn=12, remove=5, despawn=4, panicat=1, fuel=0)
+        elif self.profile == 'cascade':
+            w.update(rmc=9, addc=3, insert=30, spawn=9, send=16, sendto=4, remove=6, despawn=4, addh=6, rmh=1, addge=0, addte=1, rmge=0, rmte=1, panicat=1, fuel=0)
         elif self.profile == 'chains':
             w.update(addh=20, send=22, sendto=12, insert=12, spawn=10, rmh=5, remove=4, despawn=4, rmc=1, addc=0, addge=0, addte=0, rmge=0, rmte=0, panicat=1, fuel=1)
         names = list(w); weights = [w[k] for k in names]
         if self.profile == 'chains':
             ops += ['spawn', 'spawn'] + [self.handler() for _ in range(r.randrange(3, 8))]
+        if self.profile == 'cascade':
+            # entities over a few component sets, fetchers that watch them on G0/G1, and (often) a handler that
+            # consumes Despawn so that entities survive the announcement phase of remove_component
+            ops += ['spawn'] * r.randrange(3, 7)
+            ops += ['insert %d %d' % (r.randrange(0, 6), r.choice([0, 1, 2, 3])) for _ in range(r.randrange(4, 10))]
+            for _ in range(r.randrange(2, 5)):
+                ps = ['G%dr' % r.choice([0, 0, 1])] + ['F %s' % r.choice(self.qs) for _ in range(r.choice([1, 1, 2]))]
+                ops.append('addh %s - 0 0 %d %d %s 0 ' % (r.choice('HML'), r.choice([0, 0, 2]), len(ps), ' '.join(ps)))
+                self.count('handler_watch')
+            if r.random() < 0.7:
+                ops.append('addh %s - 1 0 0 1 T10m %s 0 ' % (r.choice('HML'), r.choice(['e', 't0', 'o r0'])))
+                self.count('handler_despawn_taker')
+        if self.profile == 'registry':
+            ops += ['spawn', 'spawn', 'insert 0 0', 'insert 1 1'] + [self.notify_handler() for _ in range(r.randrange(1, 4))]
         for _ in range(n_ops):
             op = r.choices(names, weights)[0]
             self.count('op_' + op)
@@ -173,7 +210,7 @@ class Gen:
         ops.append('drop')
         return ops
 
-def write_histories(path, seed, n_hist, n_ops, profiles=('mixed', 'structural', 'events', 'panics', 'chains')):
+def write_histories(path, seed, n_hist, n_ops, profiles=('mixed', 'structural', 'events', 'panics', 'chains', 'registry', 'cascade')):
     g = None
     hists = []
     stats = {}
